@@ -503,6 +503,16 @@ func c04Run(c core.Case) *core.Result {
 	}
 	qs := ic.queries(rng)
 	hits := ic.checkQueries(r, ix, qs, "built")
+	// empty and reversed intervals overlap no record: whatever is returned,
+	// the call returns and does not panic
+	for _, q := range [][2]int{{0, 0}, {7, 7}, {100, 3}, {1 << 14, 1 << 14}, {-5, 2}} {
+		pv, st := core.Recover(func() { ix.query(0, q[0], q[1]) })
+		if pv != nil {
+			r.Violate(ic.kind+"|degenerate-query-panic|"+core.TopLibFrame(st), "%s: query [%d,%d) panicked: %v", ic.desc, q[0], q[1], pv)
+			return r
+		}
+		r.Count("degenerate_queries", 1)
+	}
 	spanning := false
 	tile := 1 << uint(ic.set.MinShift)
 	for _, rec := range ic.set.Recs {
